@@ -26,7 +26,7 @@ func New() *Env {
 	ms := store.NewCommitMultiStore(db)
 	key := sdk.NewKVStoreKey("storeKey")
 	mem := storetypes.NewMemoryStoreKey("storeMemKey")
-	ms.MountStoreWithDB(key, storetypes.StoreTypeIAVL, db)
+	ms.MountStoreWithDB(key, storetypes.StoreTypeDB, db)
 	ms.MountStoreWithDB(mem, storetypes.StoreTypeMemory, nil)
 	if err := ms.LoadLatestVersion(); err != nil {
 		panic(err)
